@@ -271,6 +271,17 @@ def engine_seq(pid, tier, evidence=True):
     t3 = time.time()
     log(f"[seq] tlc+plan {t1-t0:.1f}s harness {t2-t1:.1f}s judge {t3-t2:.1f}s events {total}")
     found, notes, per_name = seq_collect(pid, viols, jobs, summ["summaries"], chunks)
+    ustats, ubad = upload_conformance(files, wd)
+    jr_ = {j["run"]: j for j in jobs}
+    for kind, f_, ln_, e_ in ubad:
+        job_ = jr_.get(e_["run"], {})
+        if pid == "C09" and kind == "probe" and len(found) < 40:
+            found.append(dict(sig=dict(engine="upload", kind=kind, backend=job_.get("backend"), workers=job_.get("workers")),
+                              what=f"C09: a request was not served while another upload was in flight (SyncUpload NoHolding) at run {e_['run']} step {e_['i']} "
+                                   f"({job_.get('backend')}/sock, {job_.get('workers')} worker(s)); socket steps {json.dumps(e_['overlap']['phases'])[:700]}",
+                              replay=dict(engine="seq", predicate=pid, job=dict(job_, steps=job_.get("steps", [])[: max(0, e_["i"]) + 1]))))
+        elif len(notes) < 10:
+            notes.append(f"upload path: {kind} step without a SyncUpload action at run {e_['run']} step {e_['i']} ({job_.get('backend')}, {job_.get('workers')} worker(s))")
     nev, ops, evsamples = count_events(chunks)
     rel = SEQ_RELEVANT.get(pid, lambda op, k: True)
     nontrivial = sum(n for (op, k), n in ops.items() if rel(op, k))
@@ -300,7 +311,7 @@ def engine_seq(pid, tier, evidence=True):
         shutil.rmtree(wd, ignore_errors=True)
         return dict(found=found, notes=notes, coverage={k: coverage[k] for k in ("states", "transitions", "tours", "histories", "events_judged", "events_relevant_to_property")})
     # fault facet: a read (GetChildVersion / GetSnapshot) during which a storage step fails must answer with an error or correctly
-    if pid in ("C01", "C08", "C11"):
+    if pid in ("C01", "C07", "C08", "C11"):
         fj = []
         rop, pred = ("GetSnapshot", "C11f") if pid == "C11" else ("GetChildVersion", "C08f")
         # (history, level): C11 wants states with and without a stored snapshot, and a client the server never saw
@@ -326,6 +337,29 @@ def engine_seq(pid, tier, evidence=True):
                               replay=dict(engine="conc", predicate=pred, round=e)))
         coverage["fault_facet"] = dict(rounds_judged=ftot, sweep_jobs=len(fj), request=rop)
         shutil.rmtree(wdf, ignore_errors=True)
+    if pid == "C18":
+        # refused for lack of the write lock (somebody else holds it for k lock attempts): still nothing may change
+        lj = []
+        for i, (op, argk) in enumerate(FAULT_HISTORIES[0]):
+            for lvl in ("http", "lib"):
+                if lvl == "lib" and tier == "quick" and i % 2:
+                    continue
+                lj.append({"id": f"l18-{lvl}-{i}", "mode": "lock", "backend": "sqlite", "instances": "shared", "cfg": {"days": 14, "versions": 100},
+                           "seed": [{"op": o, "arg": ARGK_SYM[a]} for o, a in FAULT_HISTORIES[0][:i]], "reqs": [{"op": op, "argk": argk, "lvl": lvl}],
+                           "follow": [], "max_rounds": 120})
+        wdl = workdir("lock18")
+        lfiles, _nl, _pl = run_conc_jobs(binary, lj, wdl)
+        lviols, ltot = judge(lfiles, spec="TraceConc.tla")
+        for v in lviols:
+            if "C18f" not in v["names"] or len(found) >= 40:
+                continue
+            e = load_event(v["file"], v["line"])
+            found.append(dict(sig=dict(engine="lock18", op=e["reqs"][0]["op"], lvl=e["reqs"][0]["lvl"], n=e["lockbusy"]["n"]),
+                              what=f"C18: {e['reqs'][0]} was refused ({e['resps'][0]}) while the write lock was held by somebody else for {e['lockbusy']['n']} lock attempts, "
+                                   f"yet the stored state changed: before latest={e['seed']['l']} nv={len(e['seed']['v'])} snap={e['seed']['s']}, after latest={e['final']['l']} nv={len(e['final']['v'])} snap={e['final']['s']}",
+                              replay=dict(engine="conc", predicate="C18f", round=e)))
+        coverage["lock_contention_facet"] = dict(rounds_judged=ltot, sweep_jobs=len(lj))
+        shutil.rmtree(wdl, ignore_errors=True)
     # the repository's own tests as traces (hook build)
     tf, tcov = tests_facet(pid)
     found += tf
@@ -368,10 +402,12 @@ def http_collect(pid, viols, jobs):
                    route=hg.get("route"), method=hg.get("method"), cid=hg.get("cid"), pid=hg.get("pid"), ct=hg.get("ct"),
                    size=hg.get("size"), backend=job.get("backend"))
         what = (f"predicate {pid} false on observed HTTP exchange: run {v['run']} ({job.get('backend')}, {job.get('kind')}) step {v['i']}: "
-                f"req={json.dumps(ev['req'])} hg={json.dumps(hg)} http={json.dumps(ev.get('http'))} twin={json.dumps(ev.get('twin', {}).get('resp'))}")
+                f"req={json.dumps(ev['req'])} hg={json.dumps(hg)} http={json.dumps(ev.get('http'))} twin={json.dumps(ev.get('twin', {}).get('resp'))}"
+                + (f" allow={json.dumps(ev.get('allow'))} state={json.dumps(ev['st'])} twin-state={json.dumps(ev['twin']['st'])}"
+                   if ev.get("twin") and json.dumps(ev["st"], sort_keys=True) != json.dumps(ev["twin"]["st"], sort_keys=True) else ""))
         steps = job.get("steps", [])[: max(0, v["i"]) + 1]
-        out.append(dict(sig=sig, what=what[:1500], replay=dict(engine="seq", predicate=pid, job=dict(job, steps=steps),
-                                                         observed=load_run(v["file"], v["run"])[-2:])))
+        out.append(dict(sig=sig, what=what[:2500], replay=dict(engine="seq", predicate=pid, job=dict(job, steps=steps),
+                                                         observed=[ev])))
     return out, notes, per_name
 
 
@@ -507,7 +543,7 @@ def engine_http(pid, tier):
         # request headers without a protocol meaning (content negotiation, conditionals, ranges, proxies ...) on every route
         hc = cases if pid != "C14" else httpplan.grammar_cases(1, [0, 1, 20], [1, 3])[0]
         for drv in ("http", "sock"):
-            js, nx = httpplan.header_jobs(rng, hc, run0, prefix="xh-" + drv)
+            js, nx = httpplan.header_jobs(rng, hc, run0, prefix="xh-" + drv, driver=drv)
             for j in js:
                 j["driver"] = drv
                 if pid == "C14" and drv == "http":
@@ -516,6 +552,16 @@ def engine_http(pid, tier):
             jobs += js
             ncases += nx
         stats["extra_header_cases"] = dict(header_sets=len(httpplan.EXTRA_HEADERS), requests=2 * nx)
+    if pid == "C14":
+        js = httpplan.outage_jobs(run0)          # storage failures: the library twin fails too, and HTTP must say 5xx
+        for j in js:
+            j["twin"] = True
+        run0 += len(js)
+        jobs += js
+    if pid in ("C20", "C15"):
+        js = seqplan.overlap_jobs(rng, 4 if tier == "quick" else 24, run0, prefix="ov-many", many=True)
+        run0 += len(js)
+        jobs += js
     if pid == "C20":
         js = httpplan.outage_jobs(run0)          # 500 responses: every storage transaction fails
         run0 += len(js)
@@ -524,7 +570,7 @@ def engine_http(pid, tier):
     t1 = time.time()
     bigj = [j for j in jobs if j.get("kind") == "grammar-big"]
     rest = [j for j in jobs if j.get("kind") != "grammar-big"]
-    summ, files = run_harness_sharded(binary, "seq", dict(plan, jobs=rest), wd)
+    summ, files = run_harness_sharded(binary, "seq", dict(plan, jobs=rest), wd, env=SOCK_ENV)
     if bigj:
         wd2 = os.path.join(wd, "big")
         os.makedirs(wd2)
@@ -689,13 +735,36 @@ CHECK_DEADLOCK FALSE
                      theorems=["HighGeLow", "Monotone", "SaturationIsExact", "NegativeIsNone"], tail=(pp.stdout + pp.stderr)[-300:] if not mm else "")
     except Exception as ex_:
         proof = dict(attempted=True, all_proved=False, error=str(ex_)[:200])
+    # the configuration nobody writes down: the executable started without any snapshot option (defaults 14 days / 100 versions)
+    bin_facet = dict(attempted=False)
+    try:
+        server = build_server_bin()
+        bscratch = os.path.join("/dev/shm" if os.path.isdir("/dev/shm") else wd, f"tcss-urgbin-{os.getpid()}")
+        shutil.rmtree(bscratch, ignore_errors=True)
+        os.makedirs(bscratch)
+        c_, j_ = bin_default_job(server, bscratch, rng, 0, 1)
+        wdb = os.path.join(wd, "bin")
+        os.makedirs(wdb)
+        sb, fb = run_harness_sharded(binary, "seq", {"threads": 1, "needs_clock": True, "jobs": [j_]}, wdb, nproc=1, env={"TCSS_SOCK_TIMEOUT": "4"})
+        vb, totb = judge(split_trace(fb, os.path.join(wdb, "chunks")))
+        for v in vb:
+            if "C12" in v["names"] and len(found) < 40:
+                ev = load_event(v["file"], v["line"])
+                found.append(dict(sig=dict(engine="urgbin", op=ev["req"]["op"], urg=ev["resp"].get("urg")),
+                                  what=f"C12: the real executable started WITHOUT snapshot options (defaults 14 days / 100 versions): predicate C12 false at step {v['i']}: "
+                                       f"{json.dumps(ev['req'])} -> {json.dumps(ev['resp'])} day={ev.get('day')} state={json.dumps(ev['st'][ev['req']['c'] - 1]['s']) if ev['req'].get('c') else ''}",
+                                  replay=dict(engine="bin", predicate="C12", config=c_)))
+        bin_facet = dict(attempted=True, events_judged=totb, args=c_["args"])
+        shutil.rmtree(bscratch, ignore_errors=True)
+    except ToolError:
+        raise
     # the counter / urgency facet on real histories: SEQ runs judged with the C12 predicates
     rc_seq = engine_seq("C12", tier, evidence=False)
     coverage = dict(states=ust["distinct"], transitions=ust["generated"], traces_validated_against_impl=ncase,
                     samples=[evs[i]["dec"] | {"urg": evs[i]["urg"], "kind": evs[i]["kind"]} for i in (0, len(evs) // 2, len(evs) - 1)],
                     grid_cases=ncase, grid_distinct=distinct, skipped_unrepresentable_age=nskip,
                     outcomes={f"{k[0]}/{k[1]}": n for k, n in kinds.items()},
-                    seq_part=rc_seq["coverage"], tlaps_proof=proof,
+                    seq_part=rc_seq["coverage"], tlaps_proof=proof, default_configuration_of_the_executable=bin_facet,
                     rule="MC_Urgency: every (targets, age, since, has) combination is an initial state (thresholds, monotonicity, BigNat vs native). "
                          "Grid: targets incl. 0, 1, odd, u32/i64 extremes x measures around each threshold; one real add_version each, "
                          "expected urgency computed by TLC with BigNat. Counter: C12_Counter/C12_Step on every step of the SEQ runs.")
@@ -980,6 +1049,95 @@ def conc_collect(pid, viols, extra_sig=None, jobs=None):
                 f"schedule {e['info']}")
         found.append(dict(sig=sig, what=what[:1800], replay=dict(engine="conc", predicate=pid, round=e, job=jobs_by_id.get(e.get("job")))))
     return found
+
+
+
+def upload_model(wd, tier):
+    """spec/SyncUpload.tla: TLC on the design the code has (all three invariants) and on the two negative controls (the invariant
+    each of them must break), and the TLAPS proof of the invariants for any number of requests / pieces / workers (recorded, never
+    deciding the exit code)."""
+    res = {}
+    for name, early, shared, expect in (("as-built", "FALSE", "FALSE", None), ("transaction-before-body", "TRUE", "FALSE", "NoHolding"),
+                                        ("per-thread-buffer", "FALSE", "TRUE", "Integrity")):
+        cfg = write_cfg(f"upload_{os.getpid()}_{name}.cfg", f"""SPECIFICATION Spec
+CONSTANTS
+  Reqs <- MCReqs
+  MaxPieces = {3 if tier == "quick" else 4}
+  Workers = 2
+  EarlyTxn = {early}
+  SharedBuffer = {shared}
+INVARIANTS TypeOK Integrity Sequential NoHolding
+CONSTRAINT ProbeBound
+CHECK_DEADLOCK FALSE
+""")
+        out = tlc("MC_Upload.tla", cfg, workers=4, timeout=900)
+        st = tlc_stats(out)
+        viol = re.search(r"Invariant (\w+) is violated", out)
+        if expect is None:
+            if not tlc_ok(out):
+                raise ToolError("TLC reports an error on the upload-layer model:\n" + ("\n".join(tlc_error_summary(out)) or out[-2000:]))
+            res[name] = dict(states=st["distinct"], transitions=st["generated"], invariants_hold=True)
+        else:
+            if not viol or viol.group(1) != expect:
+                raise ToolError(f"negative control {name} of the upload-layer model did not break {expect}: " + out[-1500:])
+            res[name] = dict(breaks=expect)
+    proof = dict(attempted=False)
+    try:
+        pd = os.path.join(wd, "proof-upload")
+        os.makedirs(pd, exist_ok=True)
+        for f in ("UploadFacts.tla", "SyncUpload.tla"):
+            shutil.copy(os.path.join(SPEC, f), pd)
+        pp = sh(["timeout", "600", "tlapm", "--threads", "8", "UploadFacts.tla"], cwd=pd, timeout=700)
+        mm = re.search(r"All (\d+) obligations? proved", pp.stdout + pp.stderr)
+        proof = dict(attempted=True, obligations_proved=int(mm.group(1)) if mm else 0, all_proved=bool(mm),
+                     theorem="Safety == Spec => [](NoHolding /\\ Integrity /\\ Sequential), any Reqs / MaxPieces / Workers, EarlyTxn = SharedBuffer = FALSE",
+                     tail=(pp.stdout + pp.stderr)[-300:] if not mm else "")
+    except Exception as ex_:
+        proof = dict(attempted=True, all_proved=False, error=str(ex_)[:200])
+    res["tlaps_proof"] = proof
+    return res
+
+
+def upload_conformance(files, wd, tag="upload"):
+    """Replay what the "Overlap" steps did on the sockets (begin / piece / probe / apply, recorded by harness/src/seq.rs) as the
+    ACTIONS of spec/SyncUpload.tla (spec/TraceUpload.tla).  Returns (stats, bad) where bad = [(kind, file, lineno, event)]:
+    kind "apply" = the stored bytes were not the upload's bytes / no answer (Integrity), "probe" = a request was not served
+    while an upload was in flight (NoHolding)."""
+    tf = os.path.join(wd, f"{tag}-phases.ndjson")
+    index = []           # flattened line -> (file, lineno)
+    ngroups = 0
+    with open(tf, "w") as w:
+        for f in files:
+            with open(f) as fh:
+                for ln, line in enumerate(fh, 1):
+                    if '"overlap"' not in line:
+                        continue
+                    e = json.loads(line)
+                    ov = e.get("overlap")
+                    if not ov:
+                        continue
+                    ngroups += 1
+                    base = {"run": e["run"], "i": e["i"]}
+                    w.write(json.dumps(dict(base, t="start", r=0)) + "\n")
+                    index.append((f, ln))
+                    for ph in ov["phases"]:
+                        w.write(json.dumps(dict(base, **ph)) + "\n")
+                        index.append((f, ln))
+    if ngroups == 0:
+        return dict(groups=0, lines=0, not_conforming=0), []
+    out = tlc("TraceUpload.tla", os.path.join(SPEC, "TraceUpload.cfg"), workers=1, timeout=1800, env={"TRACE": tf}, heap="3g", java_opts="-Xss1g", gc="-XX:+UseSerialGC")
+    m = re.search(r'<<"UPLOADRESULT", (\d+), (\d+)>>', out)
+    if not m or int(m.group(1)) != int(m.group(2)) + 1 or '<<"TOOL"' in out:
+        raise ToolError(f"TraceUpload did not consume {tf}: " + out[-1500:])
+    if "Invariant" in out and "is violated" in out:
+        raise ToolError("an invariant of SyncUpload is violated along a replayed behaviour (the model itself is wrong): " + out[-1500:])
+    bad = []
+    for l in out.splitlines():
+        mm = re.match(r'<<"NOCONF", (\d+), (-?\d+), (-?\d+), "(\w+)">>', l)
+        if mm:
+            f, ln = index[int(mm.group(1)) - 1]
+            bad.append((mm.group(4), f, ln, load_event(f, ln)))
+    return dict(groups=ngroups, lines=len(index), not_conforming=len(bad)), bad
 
 
 def engine_conc(pid, tier, evidence=True, focus=None):
@@ -1504,6 +1662,10 @@ def engine_bytes(pid, tier):
                 if chunks and driver != "lib":
                     st2["chunklist"] = chunks
                 steps += [st2, {"op": "GetSnapshot", "c": 1}]
+                if run0 % 3 == 0:
+                    # the same version once more, other bytes: the snapshot of a version is the upload that created it
+                    st3 = {"op": "AddSnapshot", "c": 1, "arg": {"sym": "latest"}, "gen": gen(cls, size + 1)}
+                    steps += [st3, {"op": "GetSnapshot", "c": 1}]
         steps.append({"op": "Reopen"})
         steps.append({"op": "Walk", "c": 1, "from": {"sym": "base"}})
         steps.append({"op": "GetSnapshot", "c": 1})
@@ -1563,16 +1725,18 @@ def engine_bytes(pid, tier):
         # 1 MiB +- 1 (own jobs: the payloads are held several times)
         if (backend, driver) in (("sqlite", "http"), ("sqlite", "sock"), ("inmemory", "http")) or tier == "thorough":
             chain_job([(rng.choice(C06_CLASSES), sz, ([524288] if driver != "lib" else None), True) for sz in sizes_big], backend, driver, "big")
-    oj = seqplan.overlap_jobs(rng, 8 if tier == "quick" else 64, run0)
+    oj = seqplan.overlap_jobs(rng, 8 if tier == "quick" else 64, run0, many=True)
     for j in oj:
         j["kind"] = "bytes"
     run0 += len(oj)
     jobs += oj
+    lim = 100 * 1024 * 1024
     if tier == "thorough":
-        lim = 100 * 1024 * 1024
         for backend in ("sqlite", "inmemory"):
             for sz in (lim - 1, lim):
                 chain_job([("random", sz, [lim // 2], False)], backend, "http", "huge")
+    else:
+        chain_job([("random", lim, [lim // 2], False)], "inmemory", "http", "huge")
     plan = {"threads": 1, "needs_clock": False, "jobs": jobs}
     t1 = time.time()
     huge = [j for j in jobs if j["id"].startswith("huge")]
@@ -1590,6 +1754,19 @@ def engine_bytes(pid, tier):
     t3 = time.time()
     log(f"[bytes] plan {t1-t0:.1f}s harness {t2-t1:.1f}s judge {t3-t2:.1f}s events {total}")
     found, notes, per_name = seq_collect(pid, viols, jobs, summ["summaries"], chunks)
+    # the socket-level steps of the overlapping uploads, replayed as the actions of SyncUpload
+    ustats, ubad = upload_conformance(files, wd)
+    jr = {j["run"]: j for j in jobs}
+    for kind, f, ln, e in ubad:
+        if kind == "apply" and len(found) < 40:
+            job = jr.get(e["run"], {})
+            found.append(dict(sig=dict(engine="upload", kind=kind, backend=job.get("backend"), workers=job.get("workers")),
+                              what=f"C06: the upload path does not conform to SyncUpload (Integrity): in the group of overlapping uploads at run {e['run']} step {e['i']} "
+                                   f"({job.get('backend')}/sock, {job.get('workers')} worker(s)) an upload was answered {json.dumps(e['resp'])} but the stored bytes are not "
+                                   f"the bytes it sent (or it was not answered); socket steps {json.dumps(e['overlap']['phases'])[:700]}",
+                              replay=dict(engine="seq", predicate=pid, job=dict(job, steps=job.get("steps", [])[: max(0, e["i"]) + 1]))))
+        elif len(notes) < 10:
+            notes.append(f"upload path: {kind} step without a SyncUpload action at run {e['run']} step {e['i']}")
     # what was covered
     distinct = set()
     nround = 0
@@ -1599,12 +1776,13 @@ def engine_bytes(pid, tier):
                 nround += 1
                 distinct.add((st["op"], st["gen"]["cls"], st["gen"]["size"], json.dumps(st.get("chunklist")), j["backend"], j["driver"]))
     nev, ops, evs = count_events(chunks)
-    coverage = dict(evaluations=nround, distinct_nontrivial=len(distinct),
+    umodel = upload_model(wd, tier)
+    coverage = dict(evaluations=nround, distinct_nontrivial=len(distinct), upload_layer_model=umodel, upload_conformance=ustats,
                     rule="each payload (byte class x length x chunk splitting) is uploaded as a version and/or snapshot and read back through GetChildVersion / "
                          "GetSnapshot / a chain walk, also after reopening; the harness maps returned bytes to the token of the upload they equal exactly "
                          "(else -1); TLC checks on every step that the token, version id and parent id are those of the creating upload (C06_Step). "
                          "distinct = distinct (operation, class, length, chunk list, backend, driver)",
-                    samples=[{"upload": next(st for st in j["steps"] if "gen" in st), "backend": j["backend"], "driver": j["driver"]} for j in (jobs[0], jobs[len(jobs) // 2], jobs[-1])],
+                    samples=[{"upload": next((st for st in j["steps"] if "gen" in st), None), "backend": j["backend"], "driver": j["driver"]} for j in (jobs[0], jobs[len(jobs) // 2], jobs[-1])],
                     jobs=len(jobs), events_judged=total, outcome_counts={f"{op}/{k}": n for (op, k), n in sorted(ops.items())},
                     lengths=dict(min=1, page_region=f"{min(page)}..{max(page)} ({len(page)} lengths)", max=max(st["gen"]["size"] for j in jobs for st in j["steps"] if "gen" in st)),
                     byte_classes=C06_CLASSES, drivers=sorted(set(c[1] for c in configs)), predicate_failures_all_properties=dict(per_name))
@@ -1753,6 +1931,30 @@ def bin_steps(days, versions, allow):
     return st
 
 
+def bin_default_job(server, scratch, rng, k, run):
+    """The real executable with NO snapshot option given (neither flag nor environment): the documented defaults (14 days,
+    100 versions) are the configuration.  Age thresholds through the clock shim, version thresholds by 150 real uploads."""
+    import uuid as uuidlib
+    ports = free_ports(1)
+    listen = ["127.0.0.1:%d" % ports[0]]
+    uu = [str(uuidlib.UUID(int=rng.getrandbits(128), version=4)) for _ in range(3)]
+    data_dir = os.path.join(scratch, f"data{k}", "defaults")
+    cwd = os.path.join(scratch, f"cwd{k}")
+    os.makedirs(cwd, exist_ok=True)
+    clock = os.path.join(scratch, f"clock{k}")
+    open(clock, "w").write("0\n")
+    args = ["--data-dir", data_dir, "--listen", listen[0]]
+    av = lambda c, a=None: {"op": "AddVersion", "c": c, "arg": a or {"sym": "latest"}}
+    steps = bin_steps(14, 100, None)
+    steps += [{"op": "AddSnapshot", "c": 2, "arg": {"sym": "latest"}}] + [av(2) for _ in range(152)] + [{"op": "GetSnapshot", "c": 2}]
+    cfg = dict(k=k, listen=listen, data_dir=data_dir, cwd=cwd, allow=None, days=14, versions=100, args=args, env={}, special="defaults")
+    job = {"id": f"bin{k}", "run": run, "backend": "sqlite", "driver": "bin", "dir": data_dir, "cfg": {"days": 14, "versions": 100},
+           "nclients": 3, "client_uuids": uu, "allow": None, "first_free": 1,
+           "bin": {"path": server, "listen": listen, "args": args, "env": {}, "cwd": cwd, "clock_file": clock},
+           "steps": steps, "kind": "binary"}
+    return cfg, job
+
+
 def engine_bin(pid, tier):
     import uuid as uuidlib
     t0 = time.time()
@@ -1841,6 +2043,9 @@ def engine_bin(pid, tier):
                          "nclients": 3, "client_uuids": uu, "allow": None, "first_free": 1, "start_may_fail": special == "busyport",
                          "bin": {"path": server, "listen": listen, "args": args, "env": env, "cwd": cwd, "clock_file": clock},
                          "steps": (bin_steps(2, 2, None) if special != "busyport" else bin_steps(2, 2, None)[:8]), "kind": "binary"})
+        c_, j_ = bin_default_job(server, scratch, rng, len(cfgs), len(cfgs) + 1)
+        cfgs.append(c_)
+        jobs.append(j_)
         plan = {"threads": 1, "needs_clock": True, "jobs": jobs}
         t1 = time.time()
         summ, files = run_harness_sharded(binary, "seq", plan, wd, nproc=min(8, len(jobs)), env={"TCSS_SOCK_TIMEOUT": "4"})
@@ -1864,9 +2069,17 @@ def engine_bin(pid, tier):
                     f"predicate(s) {names_} false at step {v['i']}: {json.dumps(ev['req'])} -> {json.dumps(ev['resp'])} msg={ev.get('msg')} "
                     f"http={json.dumps(ev.get('http', {}).get('status'))} day={ev.get('day')}")
             found.append(dict(sig=sig, what=what[:1800], replay=dict(engine="bin", predicate=pid, config=c)))
+        # a configuration the server must accept, but it did not come up
+        not_started = {s_.get("id"): s_["start_refused"] for s_ in summ["summaries"] if s_.get("start_refused")}
+        for c in cfgs:
+            jid = f"bin{c['k']}"
+            if jid in not_started:
+                found.append(dict(sig=dict(engine="bin", names=["start"], nlisten=len(c["listen"]), ipv6=any("[" in a for a in c["listen"])),
+                                  what=f"C17: the real binary did not come up with a valid configuration: args {c['args']} env {c['env']} (listen {c['listen']}): {not_started[jid]}",
+                                  replay=dict(engine="bin", predicate=pid, config=c)))
         # the data must be in the configured directory and nowhere else
         for c in cfgs:
-            if f"bin{c['k']}" in refused_start:
+            if f"bin{c['k']}" in refused_start or f"bin{c['k']}" in not_started:
                 continue            # the server refused to start with an address it cannot bind: nothing was served
             db = os.path.join(c["data_dir"], "taskchampion-sync-server.sqlite3")
             top = os.path.join(scratch, f"data{c['k']}")
@@ -1919,8 +2132,13 @@ def cmd_setup():
     sh(["cargo", "test", "--workspace", "--offline", "--no-run"], cwd=REPO, timeout=2400,
        env={"RUSTFLAGS": "--cfg tcss_verif --check-cfg cfg(tcss_verif)", "CARGO_TARGET_DIR": os.path.join(BUILD, "hook-target"), "CARGO_NET_OFFLINE": "true"})
     bad = []
+    # proof modules extend TLAPS.tla, which ships with the proof system, not with tla2tools
+    tlaps_lib = [os.path.dirname(x) for x in glob.glob("/opt/veriftools/tlapm/**/TLAPS.tla", recursive=True)][:1]
     for f in sorted(glob.glob(os.path.join(SPEC, "*.tla"))):
-        p = sh(["java", "-cp", TLA_CP, "tla2sany.SANY", f], cwd=SPEC, timeout=300)
+        proof_module = "TLAPS" in open(f).read().split("EXTENDS", 1)[-1].split("\n", 1)[0]
+        if proof_module and not tlaps_lib:
+            continue
+        p = sh(["java"] + (["-DTLA-Library=" + tlaps_lib[0]] if proof_module else []) + ["-cp", TLA_CP, "tla2sany.SANY", f], cwd=SPEC, timeout=300)
         if "Semantic errors" in p.stdout or "Parse Error" in p.stdout or p.returncode != 0 and "error" in p.stdout.lower():
             bad.append(os.path.basename(f))
     if bad:
@@ -1953,6 +2171,11 @@ def main(argv):
         return 2
     except subprocess.TimeoutExpired as e:
         print("TOOL-ERROR: timeout " + str(e)[:500])
+        return 2
+    except Exception:
+        # a defect of the checker is never a verdict about the code under test
+        import traceback
+        print("TOOL-ERROR: the checker itself failed:\n" + traceback.format_exc()[-4000:])
         return 2
 
 
